@@ -246,6 +246,10 @@ MUTANTS = [
     ("C17-simulation-order-without-reversed-at-edge", "liesel/model/model.py",
      """                if isinstance(node, Dist) and _input is node.at:
                     edges.append((node, _input))
+                    if isinstance(_input, VarValue):
+                        # the draw is written to the value node of the variable, so
+                        # nodes that use this node directly come after the dist, too
+                        edges.append((node, _input.inputs[0]))
                 else:
                     edges.append((_input, node))""",
      """                edges.append((_input, node))"""),
